@@ -1,7 +1,7 @@
 #!/bin/bash
-# run_all.sh <tier> : every registered check in sequence, one summary line each
+# run_all.sh <tier> : every registered check (or those in $VERIF_PROPS) in sequence, one summary line each
 cd "$(dirname "$0")/.."
-for p in C01 C02 C04 C05 C06 C07 C08 C10 C12 C13 C14 C15 C16 C17 C18 C19 C20; do
+for p in ${VERIF_PROPS:-C01 C02 C04 C05 C06 C07 C08 C10 C12 C13 C14 C15 C16 C17 C18 C19 C20}; do
   s=$(date +%s)
   VERIF_SCRATCH_EVIDENCE=${VERIF_SCRATCH_EVIDENCE:-} ./check $p --tier $1 > out/$p.$1.log 2>&1
   rc=$?
